@@ -66,6 +66,16 @@ func vC06(seed int64, count int, extra []string) {
 				break
 			}
 		}
+		// the file without its final end of line (and with blanks after the last token): same program
+		for _, tail := range []string{"", "  ", "\n\n\n", " // end", "\n// end"} {
+			src := strings.TrimRight(base, "\n") + tail
+			got, err := vTranspilePkg(src)
+			vstat("layouts.eof")
+			if err != "" || got != want {
+				vViolation(map[string]any{"kind": "the emitted Go depends on how the file ends (final end of line, blanks, comment)", "error": err, "ending": tail, "relayout": src})
+				break
+			}
+		}
 		// converse: dedent the last statement of an if-only body to the enclosing block's column
 		if fi, si := c06FindIfOnly(fs); fi >= 0 {
 			f := fs[fi]
